@@ -128,6 +128,47 @@ def random_histories(rng, count):
     return out
 
 
+def regroup_histories(rng, count):
+    """Histories aimed at the regrouping passes: three or four groups of
+    moderately different power, the first a single assembly that the real
+    sweep finds over-cooled (the response table used by the optimiser is too
+    pessimistic for it: the coldest assembly of the core sits alone in the
+    first group), one member of every later group hotter than predicted,
+    small tolerances so that moves are tried."""
+    out = []
+    for k in range(count):
+        ng = rng.choice([3, 3, 4])
+        sizes = [1] + [rng.randint(3, 6) for _ in range(ng - 1)]
+        top = rng.randint(80, 100)
+        ratio = rng.uniform(0.80, 0.9)
+        levels = [top]
+        for g in range(1, ng):
+            levels.append(levels[-1] * ratio)
+        pw, kfac = [], []
+        for g, sz in enumerate(sizes):
+            hot = rng.randrange(sz)
+            for i in range(sz):
+                pw.append(max(1, int(round(levels[g] - (0.6 * i if g else 0)))))
+                kfac.append(rng.uniform(0.75, 0.9) if g == 0 else
+                            (rng.uniform(1.12, 1.25) if i == hot
+                             else rng.uniform(0.97, 1.03)))
+        order = list(range(len(pw)))
+        rng.shuffle(order)
+        pw = [pw[i] for i in order]
+        kfac = [kfac[i] for i in order]
+        out.append((f'rg{k}-g{ng}-n{len(pw)}', {
+            'pw': pw, 'ng': ng, 'cutoff': 0.05, 'delta': 0.005,
+            'dist': True, 'types': [0] * len(pw), 'C': [820.0, 820.0],
+            'K': [1.6e-3, 1.6e-3], 'curve': 0.0,
+            'rounds': rng.choice([2, 3]), 'regroup': True,
+            'rtol': rng.choice([0.002, 0.01]),
+            'itol': rng.choice([0.0, 0.001]),
+            'noise': 0.0, 'kfac': kfac,
+            'ntime': rng.choice([1, 2]), 'seed': rng.randrange(1 << 30),
+            'mode': 'none'}))
+    return out
+
+
 def run(tier, res, replay=None):
     rng = random.Random(common.seed() * 9176 + 20)
     design(res, tier)
@@ -142,6 +183,7 @@ def run(tier, res, replay=None):
                                  'model': r['model'],
                                  'model_sizes': r['model_sizes']}))
     jobs += random_histories(rng, 300 if tier == 'quick' else 3000)
+    jobs += regroup_histories(rng, 80 if tier == 'quick' else 600)
     if replay:
         import json
         rp = json.load(open(replay))
